@@ -102,7 +102,7 @@ func checkC05(c *Ctx) {
 		// the library's ready-made collapsing sketches (same kind and limit on both sides; built by the preset constructors)
 		sketches("plain", mk("low", 3), mk("low", 3), mk("low", 3), mk("low", 3), mk("high", 2), mk("high", 2))} {
 		simc := &SketchGen{Init: ks, Tokens: append(append([]int{}, tokBins3...), 0, 2, 16, 17, -16, -17), Weights: []int{1, 2, 4, 8},
-			Ops: []string{"Add", "AddW", "Merge", "Copy", "Clear", "EncDec", "DecodeNew"}, Q: 4, QDen: 8, Depth: c.pick(12, 20), Simulate: true, Num: c.pick(600, 15000)}
+			Ops: []string{"Add", "AddW", "Merge", "Copy", "Clear", "EncDec", "DecodeNew"}, Q: 4, QDen: 8, Depth: c.pick(12, 20), Simulate: true, Num: c.pick(600, 8000)}
 		c.runSketchGen(simc, mxs, c.pick(6, 12), "sketches on collapsing stores")
 	}
 	treeS := &SketchGen{Init: sketches("plain", mk("high", 2), mk("low", 2)), Tokens: []int{10, 12, 14, 16, -10, -12, -14}, Ops: []string{"Add"}, Q: 4, QDen: 8, Depth: c.pick(4, 5)}
